@@ -39,6 +39,7 @@ type c14CtxCall struct {
 	Want string `json:"want,omitempty"`
 	Got  string `json:"got,omitempty"`
 	Err  string `json:"err,omitempty"`
+	Ctx  string `json:"ctx,omitempty"` // how the context of the call came about
 }
 
 type c14CtxReport struct {
@@ -126,39 +127,116 @@ func c14CtxChild(seed int64) {
 
 	comm := tars.NewCommunicator()
 	sp := tars.NewServantProxy(comm, rep.Obj)
-	n := 60
-	for i := 0; i < n; i++ {
-		call := c14CtxCall{Kind: []string{"conhash", "modhash", "none"}[i%3]}
+	// Contexts: every context made by ContextWithClientCurrent has a hash setting of its own (none at first); a context
+	// derived in any other way (context.WithValue) shares its parent's.  A call is routed by the setting of the context it
+	// is made with, at the time of the call: nested, derived and reused contexts in both orders.
+	type hset struct {
+		kind string
+		code uint32
+	}
+	type cref struct {
+		ctx   context.Context
+		owner int    // index into settings
+		how   string // for the report
+	}
+	var settings []*hset
+	var ctxs []cref
+	type ckey int
+	fresh := func(parent int) int {
+		p, how := context.Background(), "root"
+		if parent >= 0 {
+			p, how = ctxs[parent].ctx, fmt.Sprintf("ContextWithClientCurrent(ctx%d)", parent)
+		}
+		settings = append(settings, &hset{kind: "none"})
+		ctxs = append(ctxs, cref{current.ContextWithClientCurrent(p), len(settings) - 1, how})
+		return len(ctxs) - 1
+	}
+	plain := func(parent int) int {
+		ctxs = append(ctxs, cref{context.WithValue(ctxs[parent].ctx, ckey(len(ctxs)), 1), ctxs[parent].owner, fmt.Sprintf("WithValue(ctx%d)", parent)})
+		return len(ctxs) - 1
+	}
+	code := func() uint32 {
 		switch rng.Intn(4) {
 		case 0:
-			call.Code = []uint32{0, 1, 0x7fffffff, 0x80000000, 0xffffffff, 0xfffffffe}[rng.Intn(6)]
+			return []uint32{0, 1, 0x7fffffff, 0x80000000, 0xffffffff, 0xfffffffe}[rng.Intn(6)]
 		case 1:
 			if len(keys) > 0 {
-				call.Code = keys[rng.Intn(len(keys))] + uint32(rng.Intn(3)) - 1
+				return keys[rng.Intn(len(keys))] + uint32(rng.Intn(3)) - 1
 			}
-		default:
-			call.Code = rng.Uint32()
 		}
-		ctx := current.ContextWithClientCurrent(context.Background())
-		switch call.Kind {
+		return rng.Uint32()
+	}
+	set := func(c int, kind string, cd uint32) {
+		ht := int(tars.ConsistentHash)
+		if kind == "modhash" {
+			ht = int(tars.ModHash)
+		}
+		current.SetClientHash(ctxs[c].ctx, ht, cd)
+		*settings[ctxs[c].owner] = hset{kind, cd}
+	}
+	n := 0
+	invoke := func(c int) {
+		h := *settings[ctxs[c].owner]
+		call := c14CtxCall{Kind: h.kind, Code: h.code, Ctx: fmt.Sprintf("ctx%d=%s", c, ctxs[c].how)}
+		switch h.kind {
 		case "conhash":
-			current.SetClientHash(ctx, int(tars.ConsistentHash), call.Code)
-			e, err := refCon.Select(c13Msg{call.Code})
-			if err == nil {
+			if e, err := refCon.Select(c13Msg{h.code}); err == nil {
 				call.Want = e.Host
 			}
 		case "modhash":
-			current.SetClientHash(ctx, int(tars.ModHash), call.Code)
-			e, err := refMod.Select(c13Msg{call.Code})
-			if err == nil {
+			if e, err := refMod.Select(c13Msg{h.code}); err == nil {
 				call.Want = e.Host
 			}
 		}
 		var resp requestf.ResponsePacket
-		if err := sp.TarsInvoke(ctx, byte(basef.TARSONEWAY), fmt.Sprintf("vrfy%06dq", i), []byte{}, nil, nil, &resp); err != nil {
+		if err := sp.TarsInvoke(ctxs[c].ctx, byte(basef.TARSONEWAY), fmt.Sprintf("vrfy%06dq", n), []byte{}, nil, nil, &resp); err != nil {
 			call.Err = err.Error()
 		}
+		n++
 		rep.Calls = append(rep.Calls, call)
+	}
+	kinds := []string{"conhash", "modhash"}
+	for i := 0; i < 15; i++ { // one fresh context per call
+		c := fresh(-1)
+		if i%3 != 2 {
+			set(c, kinds[i%3], code())
+		}
+		invoke(c)
+	}
+	for round := 0; round < 4; round++ { // parent and child with different hash types and codes, both orders
+		a := fresh(-1)
+		set(a, kinds[round%2], code())
+		b := fresh(a)
+		set(b, kinds[(round+1)%2], code())
+		c := fresh(b) // sets no hash: round-robin
+		d := plain(a) // shares a's setting
+		order := [][]int{{a, b, c, d}, {b, a, d, c}, {c, a, b, a}, {d, c, b, a}}[round]
+		for _, x := range order {
+			invoke(x)
+		}
+		set(a, kinds[(round+1)%2], code()) // the parent's hash changes after the children exist
+		invoke(b)
+		invoke(a)
+		invoke(c)
+		invoke(d)
+	}
+	r := fresh(-1) // one context reused for several calls with its hash changed between them
+	for i := 0; i < 6; i++ {
+		invoke(r)
+		set(r, kinds[i%2], code())
+		invoke(r)
+	}
+	for len(rep.Calls) < 75 { // random mix
+		switch x := rng.Intn(10); {
+		case x < 2:
+			fresh(rng.Intn(len(ctxs)))
+		case x == 2:
+			plain(rng.Intn(len(ctxs)))
+		case x < 5:
+			set(rng.Intn(len(ctxs)), kinds[rng.Intn(2)], code())
+		default:
+			invoke(rng.Intn(len(ctxs)))
+		}
 	}
 	deadline := time.Now().Add(15 * time.Second)
 	for time.Now().Before(deadline) {
@@ -190,8 +268,17 @@ func c14CtxRouting(tier string, rng *rand.Rand, res *Result) {
 	calls, lost, skipped := 0, 0, 0
 	for r := 0; r < runs; r++ {
 		seed := rng.Int63()
-		cmd := exec.Command(os.Args[0], "c14-ctx", fmt.Sprintf("seed=%d", seed))
-		out, err := c13RunTimeout(cmd, 90*time.Second)
+		var out string
+		var err error
+		for attempt, d := range []time.Duration{90 * time.Second, 180 * time.Second, 300 * time.Second} {
+			// not finishing is a timing verdict: it counts only if it happens three times in a row (loaded machine)
+			cmd := exec.Command(os.Args[0], "c14-ctx", fmt.Sprintf("seed=%d", seed))
+			out, err = c13RunTimeout(cmd, d)
+			if strings.Contains(out, "C14CTX ") {
+				break
+			}
+			st["unfinished_attempts"] = attempt + 1
+		}
 		replay := map[string]interface{}{"cmd": fmt.Sprintf("harness c14-ctx seed=%d", seed)}
 		i := strings.LastIndex(out, "C14CTX ")
 		if i < 0 {
@@ -230,7 +317,7 @@ func c14CtxRouting(tier string, rng *rand.Rand, res *Result) {
 			case !member[c.Got]:
 				sig, desc = "hash-routing/ctx/non-member", fmt.Sprintf("call %d reached %s which is not an endpoint of the proxy", ci, c.Got)
 			case c.Kind != "none" && c.Want != "" && c.Got != c.Want:
-				sig, desc = "hash-routing/ctx/"+c.Kind+"-differs", fmt.Sprintf("call %d with hash type %s and hash code %d in its context reached %s; a %s selector holding the same endpoints selects %s (proxy %s)", ci, c.Kind, c.Code, c.Got, c.Kind, c.Want, rep.Obj)
+				sig, desc = "hash-routing/ctx/"+c.Kind+"-differs", fmt.Sprintf("call %d with hash type %s and hash code %d in its own context (%s) reached %s; a %s selector holding the same endpoints selects %s (proxy %s)", ci, c.Kind, c.Code, c.Ctx, c.Got, c.Kind, c.Want, rep.Obj)
 			}
 			if sig != "" && !seen[sig] {
 				seen[sig] = true
